@@ -3,8 +3,12 @@ package checks
 import (
 	"context"
 	"fmt"
+	"github.com/sdcio/cache/proto/cachepb"
+	"github.com/sdcio/data-server/pkg/cache"
+	"google.golang.org/protobuf/proto"
 	"sort"
 	"strings"
+	"time"
 
 	"github.com/sdcio/data-server/pkg/config"
 	"github.com/sdcio/data-server/pkg/datastore/target"
@@ -221,6 +225,57 @@ func (c *c10) RunCase(w *core.Worker, idx int, seed uint64, res *core.CaseResult
 		}
 		res.Tracef("step %d: %s", s, stepString(step))
 		nBefore := run.ds.Dev.NumSets()
+		if s > 0 && rng.Chance(1, 6) && !strings.Contains(poolName, "choice") {
+			// a transaction with a replace intent: the device configuration is replaced by the content of that intent
+			// (target_source_replace.go: root delete in proto, operation replace in XML); the renderings handed to the
+			// target must denote the same result
+			vals := map[string]string{}
+			for j := 0; j < 1+rng.Intn(4); j++ {
+				l := c.h.pool[rng.Intn(len(c.h.pool))]
+				vals[l.XPath] = l.Vals[rng.Intn(len(l.Vals))]
+			}
+			repl := stepIntent{Owner: "repl", Prio: 2, Vals: vals, Kind: "replace-intent"}
+			id := run.nextID() + "r"
+			out := run.set(id, nil, &repl, time.Minute, false)
+			run.canon = append(run.canon, "REPLACE "+model.SortedMap(vals))
+			if out.convErr != nil || out.panicked || out.err != nil || out.rejected {
+				res.Inconclusive("C10/replace-intent-refused", "conv=%v err=%v rejected=%v: %s", out.convErr, out.err, out.rejected, model.SortedMap(vals))
+				break
+			}
+			run.ds.TransactionConfirm(run.ctx, id)
+			// the device was replaced wholesale; the server's optimistic write-back of the running store only adds what
+			// the replace intent says. Let the device report itself (what a sync does) so that the following steps start
+			// from a running store that mirrors the device
+			{
+				cur, _ := fixture.DumpStore(run.ctx, c.h.env.Cache, run.ds.Name, cachepb.Store_CONFIG)
+				var dels [][]string
+				for k := range cur {
+					dels = append(dels, strings.Split(k, ","))
+				}
+				var upds []*cache.Update
+				dev := run.ds.Dev.Snapshot()
+				for _, k := range sortedKeys(dev) {
+					kind := "string"
+					if l, ok := leafIndex(c.h.pool, runningOnly)[k]; ok {
+						kind = l.Kind
+					} else if len(model.Parse(k)) > 0 {
+						kind = keyLeafKind(k)
+					}
+					b, _ := proto.Marshal(kindTv(kind, dev[k]))
+					upds = append(upds, cache.NewUpdate(strings.Split(model.CachePath(model.Parse(k)), ","), b, 0, "", 0))
+				}
+				c.h.env.Cache.Modify(run.ctx, run.ds.Name, &cache.Opts{Store: cachepb.Store_CONFIG}, dels, nil)
+				c.h.env.Cache.Modify(run.ctx, run.ds.Name, &cache.Opts{Store: cachepb.Store_CONFIG}, nil, upds)
+			}
+			for i, rec := range run.ds.Dev.AllSets() {
+				if i < nBefore || rec.Views == nil {
+					continue
+				}
+				c.judge(res, fmt.Sprintf("step %d, Set %d of the transaction with the replace intent %s", s, i-nBefore, model.SortedMap(vals)), rec)
+				res.Count("replace_transactions_rendered", 1)
+			}
+			continue
+		}
 		if _, ok := run.commit(step); !ok {
 			break
 		}
@@ -323,6 +378,7 @@ func (c *c10) judge(res *core.CaseResult, where string, rec *fixture.SetRecord) 
 	fullXML := map[string]map[string]string{}
 	replaceReported := false
 	presReported := false
+	replIntentReported := false
 	for _, o := range opts {
 		doc := v.XML[o]
 		ch, err := model.DecodeXML(doc, model.XMLOpts{HonorNS: o.HonorNS, OpWithNS: o.OpWithNS, UseRemove: o.UseRemove})
@@ -342,7 +398,21 @@ func (c *c10) judge(res *core.CaseResult, where string, rec *fixture.SetRecord) 
 			got := applyChange(rec.Before, ch.Deletes, ch.Writes)
 			if d := fixture.MapDiff(want, got); d != "" {
 				key := "C10/xml-denotes-different-change"
-				if presenceDeleteWithChildren(pdels, pw) {
+				rootDelete := false
+				for _, pd := range pdels {
+					if len(pd) == 0 {
+						rootDelete = true
+					}
+				}
+				if rootDelete && !strings.Contains(doc, "replace") {
+					// the proto view of a replace intent deletes from the root; the XML view was meant to carry
+					// operation="replace" but the document says nothing of the kind
+					key = "C10/xml-of-a-replace-intent-does-not-replace"
+					if replIntentReported {
+						continue
+					}
+					replIntentReported = true
+				} else if presenceDeleteWithChildren(pdels, pw) {
 					key = "C10/xml-presence-container-delete-drops-the-children-that-remain"
 					if presReported {
 						continue
